@@ -146,6 +146,7 @@ func runC07(c *Checker) {
 	// templates, or the exact-ACK move on an empty queue) makes size() cover slots that hold no
 	// packet, and resend then dereferences nil - the base-move rules (WIN-4, as C01) belong here too
 	ruleNILLATE(c)
+	ruleNILWIRE(c)
 	ruleWIN4(c)
 	// ... and WIN-4's guard is containsSequence: if it admits a number outside [base, top) the base
 	// leaves the window just the same (ORD-1, as C01)
